@@ -203,6 +203,9 @@ def c2s_job(job):
     for i in range(rng.choice([0, 1, 2, 3, 4, 6])):
         r = rng.random()
         nm = "d%d" % i if rng.random() < 0.8 else rng.choice(["Song (final)", "bn", "x.sm", "UPPER"]) + str(i)
+        if rng.random() < 0.3:
+            # directories may be called anything - also like a simfile, an image or a track
+            nm += rng.choice([".sm", ".SSC", ".png", ".ogg", ".mp3", " (v1.2)", ".d", ".JPG"])
         if r < 0.2:
             entries.append({"name": nm + rng.choice([".sm", ".SSC", ".png"]), "isdir": False, "sub": [], "stray": []})
         else:
